@@ -81,6 +81,24 @@ impl SemanticState {
 
     // todo: define an actual error type
     pub fn add_file(&mut self, base_path: &Path, path: &Path) -> anyhow::Result<()> {
+        // `./types` and `types` are the same directory; glob yields paths without the `./`.
+        let without_cur_dir = |p: &Path| -> std::path::PathBuf {
+            p.components()
+                .filter(|c| !matches!(c, std::path::Component::CurDir))
+                .collect()
+        };
+        let (base_path, relative_path) = (without_cur_dir(base_path), without_cur_dir(path));
+        let relative_path = relative_path
+            .strip_prefix(&base_path)
+            .unwrap_or(&relative_path);
+        if !relative_path.is_relative() {
+            anyhow::bail!(
+                "the path {} is not inside {}",
+                path.display(),
+                base_path.display()
+            );
+        }
+
         self.add_module(
             &parser::parse_str(&std::fs::read_to_string(path)?).map_err(|e| {
                 let proc_macro2::LineColumn { line, column } = e.span().start();
@@ -91,7 +109,7 @@ impl SemanticState {
                     column + 1
                 ))
             })?,
-            &ItemPath::from_path(path.strip_prefix(base_path).unwrap_or(path)),
+            &ItemPath::from_path(relative_path),
         )
     }
 
